@@ -47,7 +47,7 @@ var typedVals = map[string][]any{
 	"boolean": {true, false},
 	"number":  {json.Number("0"), json.Number("1"), json.Number("2"), json.Number("-1"), json.Number("3.0"), json.Number("2.5"), json.Number("1e0"), json.Number("-0.5"), json.Number("100")},
 	"string":  {"", "a", "abc", "aébcab", " x ", "1", "a,b,,c", "é"},
-	"array":   {[]any{}, []any{json.Number("1"), json.Number("2")}, []any{"b", "a"}, []any{[]any{"k", json.Number("1")}}, []any{json.Number("1"), "a"}, []any{nil, json.Number("3")}, []any{map[string]any{"a": json.Number("1")}, map[string]any{"a": json.Number("0")}}},
+	"array":   {[]any{}, []any{true}, []any{nil}, []any{map[string]any{"a": nil}}, []any{json.Number("1"), json.Number("2")}, []any{"b", "a"}, []any{[]any{"k", json.Number("1")}}, []any{json.Number("1"), "a"}, []any{nil, json.Number("3")}, []any{map[string]any{"a": json.Number("1")}, map[string]any{"a": json.Number("0")}}},
 	"object":  {map[string]any{}, map[string]any{"a": json.Number("1"), "b": "x"}, map[string]any{"k": nil}},
 }
 var allTypes = []string{"null", "boolean", "number", "string", "array", "object"}
